@@ -186,6 +186,7 @@ class SimKernel(object):
         self.break_spin = set()       # pids for which waitpid answers ECHILD
         self.sender = None            # callable -> attribution string
         self.on_signal = None         # hook(entry) evaluated at delivery time
+        self.sig_context = None       # callable -> extra facts for the signal log
         self.on_spawn = None
         self.on_death = None
         self.getpid_value = DAEMON_PID
@@ -333,6 +334,8 @@ class SimKernel(object):
         entry = {'t': sim.now, 'call': sim.ncalls, 'step': sim.steps,
                  'pid': pid, 'sig': sig, 'via': via,
                  'sender': self.sender() if self.sender else None}
+        if self.sig_context is not None:
+            entry['ctx'] = self.sig_context()
         if not isinstance(sig, int):
             raise TypeError("an integer is required")
         if sig < 0 or sig > 64:
